@@ -359,6 +359,16 @@ package server
 // "... until the per-family long-lived timer expires": what the expiry removes are the routes still stale; routes the
 // peer has re-announced since (the session may be up again, End-of-RIB not yet in) are fresh and stay. The closure is
 // the management operation run by the timer goroutine: what it propagates comes from the sweep of stale routes
+// the step itself: for a restarting peer the families are classified by what the new session's capability lists
+// (forwardingPreservedFamilies, under contract above), exactly the stale routes of the families not listed are swept
+// and propagated as withdrawals, and the peer stops being "restarting" when no family is left
+//@ func (*BgpServer).dropStaleOfFamiliesNotRenewed
+//@   claims at-call at-return
+//@   at-call peer.adjRibIn.DropStale( requires called(forwardingPreservedFamilies) && arg1 == gone && len(gone) > 0
+//@   at-call s.propagateUpdate( requires called(DropStale) && arg2 == dropped
+//@   at-call peer.stopPeerRestarting() requires len(renewed) == 0
+//@   at-return requires called(forwardingPreservedFamilies) && len(gone) > 0 ==> called(propagateUpdate)
+
 //@ func (*BgpServer).handleFSMMessage$2$1
 //@   claims at-call
 //@   at-call s.propagateUpdate( requires called(DropStale) && !called(DropAll) && !called(dropAdjRIBIn)
